@@ -35,6 +35,23 @@ namespace detail {
     // clang-format on
   }
 
+#ifdef ALLENABY_RLBOX_VERIF
+  // Verification hook (add-only, compiled out unless ALLENABY_RLBOX_VERIF is
+  // defined): interleave points placed between RLBox's successive reads of
+  // sandbox memory, so that a test harness can mutate sandbox memory
+  // deterministically at each point.
+  inline void (*verif_interleave_hook)(const char* site) = nullptr;
+  inline void verif_interleave(const char* site)
+  {
+    if (verif_interleave_hook != nullptr) {
+      verif_interleave_hook(site);
+    }
+  }
+#  define RLBOX_VERIF_INTERLEAVE(site) ::rlbox::detail::verif_interleave(site)
+#else
+#  define RLBOX_VERIF_INTERLEAVE(site) (void)0
+#endif
+
 #ifdef RLBOX_NO_COMPILE_CHECKS
 #  if __cpp_exceptions && defined(RLBOX_USE_EXCEPTIONS)
 #    define rlbox_detail_static_fail_because(CondExpr, Message)                \
